@@ -63,6 +63,14 @@ func cacheSpecs() []rewrite.PkgSpec {
 	}
 }
 
+func proxySpecs() []rewrite.PkgSpec {
+	net := map[string]string{"os": "verif/sim/os", "net": "verif/sim/net", "net/http": "verif/sim/net", "sync": "verif/sim/sync"}
+	return []rewrite.PkgSpec{
+		{Dir: repo("goproxytest"), Subst: net, GoStmts: true},
+		{Dir: repo("par"), Subst: substSync, GoStmts: true},
+	}
+}
+
 func lfSpecs() []rewrite.PkgSpec {
 	return []rewrite.PkgSpec{
 		{Dir: repo("lockedfile"), Subst: substLF, GoStmts: true},
@@ -82,6 +90,12 @@ var props = map[string]propCfg{
 	"C07": {
 		Harness:  "./harness/c07",
 		Specs:    lfSpecs(),
+		Quick:    tierCfg{16, 20},
+		Thorough: tierCfg{16, 600},
+	},
+	"C20": {
+		Harness:  "./harness/c20",
+		Specs:    proxySpecs(),
 		Quick:    tierCfg{16, 20},
 		Thorough: tierCfg{16, 600},
 	},
